@@ -40,7 +40,8 @@ def cases(tier, seed):
 
 def build_history(case):
     rng = core.rng_for(case["seed"], ID, case["idx"])
-    prog = progs.gen_program(rng, "vp_%d_%d" % (case["seed"], case["idx"]))
+    prog = progs.gen_program(rng, "vp_%d_%d" % (case["seed"], case["idx"]),
+                             **({"p_hidden": 0.4} if case["idx"] % 5 == 2 else {}))
     hist = [(prog, {"kind": "initial"})]
     for k in range(case["edits"]):
         prog, desc = progs.random_edit(rng, prog)
@@ -51,22 +52,25 @@ def build_history(case):
 
 
 # ---------------------------------------------------------------- calling
-def call_all(prog, pkg, rec, twin):
-    """Calls every memento function twice with x=1. Returns {name: [(outcome, bodies run), ...]}."""
+def call_all(prog, pkg, rec, twin, rev=False):
+    """Calls every memento function twice with x=1, callers first. With rev: callees first, and with x=2 before x=1, so
+    that what a caller asks of its callees (x + 1) is memoized already when it runs. Returns
+    {name or name@x: [(outcome, bodies run), ...]}."""
     out = {}
-    for i in progs.roots(prog):
-        nd = prog["nodes"][i]
-        mod = sys.modules[progs.modname(prog, nd["mod"], twin)]
-        fn = getattr(mod, nd["name"])
-        res = []
-        for _ in range(1 if twin else 2):
-            mark = rec.mark()
-            try:
-                o = ["ret", fn(1)]
-            except Exception as e:
-                o = ["raise", type(e).__name__, str(e)[:200]]
-            res.append([o, [e[0] for e in rec.since(mark)]])
-        out[nd["name"]] = res
+    for x in ((2, 1) if rev else (1,)):
+        for i in (reversed(progs.roots(prog)) if rev else progs.roots(prog)):
+            nd = prog["nodes"][i]
+            mod = sys.modules[progs.modname(prog, nd["mod"], twin)]
+            fn = getattr(mod, nd["name"])
+            res = []
+            for _ in range(1 if twin else 2):
+                mark = rec.mark()
+                try:
+                    o = ["ret", fn(x)]
+                except Exception as e:
+                    o = ["raise", type(e).__name__, str(e)[:200]]
+                res.append([o, [e[0] for e in rec.since(mark)]])
+            out[nd["name"] + ("" if x == 1 else "@%d" % x)] = res
     return out
 
 
@@ -94,11 +98,11 @@ def cross_child(arg):
     prog = arg["prog"]
     sys.path.insert(0, arg["src"])
     import_pkg("tw_" + prog["pkg"])
-    twin = call_all(prog, "tw_" + prog["pkg"], TWIN_REC, True)
+    twin = call_all(prog, "tw_" + prog["pkg"], TWIN_REC, True, arg.get("rev"))
     env.set_env(os.path.join(arg["store"], "env"), default_storage=env.fs_backend(
         os.path.join(arg["store"], "data"), cache_mb=arg.get("cache")))
     import_pkg(prog["pkg"])
-    real = call_all(prog, prog["pkg"], REC, False)
+    real = call_all(prog, prog["pkg"], REC, False, arg.get("rev"))
     return {"twin": twin, "real": real, "versions": versions(prog, prog["pkg"])}
 
 
@@ -156,8 +160,8 @@ def inproc_child(arg):
         if desc.get("silent"):
             steps.append(None)
             continue
-        twin_vals = call_all(prog, "tw_" + pkg, TWIN_REC, True)
-        real = call_all(prog, pkg, REC, False)
+        twin_vals = call_all(prog, "tw_" + pkg, TWIN_REC, True, arg.get("rev"))
+        real = call_all(prog, pkg, REC, False, arg.get("rev"))
         steps.append({"twin": twin_vals, "real": real, "versions": versions(prog, pkg)})
     return steps
 
@@ -200,7 +204,7 @@ def judge(out, fail, hist, steps, label):
                             else "value differs from the un-memoized execution")
                     how = mechanism(hist, k, name)
                     fail("%s after %s" % (what, how),
-                         "%s step %d (%s): %s(1) call %d returned %s, un-memoized execution of the current edition gives %s"
+                         "%s step %d (%s): %s (argument 1 unless @x) call %d returned %s, un-memoized execution of the current edition gives %s"
                          "%s; bodies run: %s; edit %s\n--- current edition, module of the function ---\n%s"
                          % (label, k, kind, name, j, o, want,
                             " (= value of edition %d)" % stale_of if stale_of is not None else "", ran,
@@ -212,7 +216,7 @@ def judge(out, fail, hist, steps, label):
 def mechanism(hist, k, name):
     """Mechanism signature of a stale value: the kind of the most recent edit beneath the function."""
     prog, desc = hist[k]
-    idx = next(i for i, nd in enumerate(prog["nodes"]) if nd["name"] == name)
+    idx = next(i for i, nd in enumerate(prog["nodes"]) if nd["name"] == name.split("@")[0])
     for back in range(k, 0, -1):
         p, d = hist[back]
         below = progs.reaches(p, idx) | {idx}
@@ -237,6 +241,7 @@ def run_case(case):
     for p, _ in hist:
         out["sets"]["features"] |= progs.features(p)
     cache = 16 if case["idx"] % 3 == 0 else None
+    rev = case["idx"] % 4 >= 2  # callees are called before their callers (what a caller needs is memoized already)
     with env.Scratch() as sc:
         try:
             if case["delivery"] == "cross":
@@ -248,10 +253,11 @@ def run_case(case):
                     src = sc.path("src%d" % k)
                     progs.write_package(prog, src, twin=False)
                     progs.write_package(prog, src, twin=True)
-                    steps.append(procs.in_child(cross_child, {"prog": prog, "src": src, "store": sc.path("store"), "cache": cache}))
+                    steps.append(procs.in_child(cross_child, {"prog": prog, "src": src, "store": sc.path("store"), "cache": cache,
+                                                                  "rev": rev}))
             else:
                 steps = procs.in_child(inproc_child, {"hist": hist, "src": sc.path("src"), "store": sc.path("store"),
-                                                      "delivery": case["delivery"], "cache": cache}, timeout=300)
+                                                      "delivery": case["delivery"], "cache": cache, "rev": rev}, timeout=300)
         except procs.ChildFailed as e:
             fail("running a generated program failed (%s)" % e.kind,
                  "%s: %s\n%s" % (label, str(e)[-1500:], json.dumps([d for _, d in hist])))
